@@ -200,6 +200,16 @@ def check_system(ctx, s, instances, species, w, deep):
     comp = Counter(species[i['species']]['name'] for i in want)
     if dict(s.composition) != dict(comp):
         ctx.violation('composition-disagrees', f'{dict(s.composition)} != {dict(comp)}', witness=w)
+    # what composition hands out is the caller's to edit (summing frames, dropping a species): the system's own answer stays
+    handed = s.composition
+    try:
+        handed.update({'XXX': 3})
+        for key in list(handed)[:1]:
+            del handed[key]
+    except Exception:  # noqa
+        pass
+    if dict(s.composition) != dict(comp) or len(s) != n:
+        ctx.violation('composition-changed-by-editing-what-it-returned', f'{dict(s.composition)} != {dict(comp)} after the caller edited the returned counter', witness=w)
     if not deep:
         return True
     ctx.monitor('access_consistency')
